@@ -10,7 +10,7 @@ ls "$HERE/seeded" | grep -E '^C[0-9]+-' | while read s; do
     res=$("$HERE/bin/trymutant.sh" "$HERE/seeded/$s/patch.diff" $prop 2>&1)
     rules=$(echo "$res" | grep -o "rule=R[0-9a-z]*" | sort -u | tr '\n' ' ' | sed 's/rule=//g')
     first=$(echo "$res" | grep "rule=" | head -1 | sed 's/^ *rule=[^ ]* construct=//' | cut -c1-140)
-    if echo "$res" | grep -q "^VIOLATION property=$prop"; then verdict=caught; elif echo "$res" | grep -q "patch does not apply"; then verdict="patch no longer applies"; else verdict=MISSED; fi
+    if echo "$res" | grep -q "^VIOLATION property=$prop"; then verdict=caught; elif grep -q '"status": "obsolete' "$HERE/seeded/$s/meta.json"; then verdict="obsolete (no longer a violation after a repair)"; elif echo "$res" | grep -q "patch does not apply"; then verdict="patch no longer applies"; else verdict=MISSED; fi
     summary=$(python3 -c "import json;print(json.load(open('$HERE/seeded/$s/meta.json')).get('summary','')[:160].replace('|','/').replace('\n',' '))" 2>/dev/null)
     echo "| $s | $verdict | $rules | $first | $summary |" > $tmp/$s.row
   ) &
